@@ -22,6 +22,20 @@ package fox
 
 //@ fun out(p string, buf []byte, i int) int = len(buf) == 0 ? p[i] : buf[i]
 
+//@ -- M: the monotone part of "out[0:w] is a clean prefix": rooted, no empty element,
+//@ -- no '.' or '..' element that lies completely inside the prefix.
+//@ pred rooted(p string, buf []byte) = out(p, buf, 0) == '/'
+//@ pred noEmpty(p string, buf []byte, w int) = forall i int :: 0 < i && i < w && out(p, buf, i) == '/' ==> out(p, buf, i-1) != '/'
+//@ pred noDot(p string, buf []byte, w int) = forall i int :: 0 < i && i+1 < w && out(p, buf, i-1) == '/' && out(p, buf, i) == '.' ==> out(p, buf, i+1) != '/'
+//@ pred noDotDot(p string, buf []byte, w int) = forall i int :: 0 < i && i+2 < w && out(p, buf, i-1) == '/' && out(p, buf, i) == '.' && out(p, buf, i+1) == '.' ==> out(p, buf, i+2) != '/'
+//@ -- the last element of out[0:w] is complete and is neither '.' nor '..'
+//@ pred lastOK(p string, buf []byte, w int) = (w >= 2 ==> out(p, buf, w-1) != '/') && (w >= 2 ==> !(out(p, buf, w-1) == '.' && out(p, buf, w-2) == '/')) && (w >= 3 ==> !(out(p, buf, w-1) == '.' && out(p, buf, w-2) == '.' && out(p, buf, w-3) == '/'))
+//@ -- the path element of p starting at k is a real element (not empty, '.', '..')
+//@ pred realElem(p string, k int) = k < len(p) && p[k] != '/' && (p[k] == '.' ==> k+1 < len(p) && p[k+1] != '/' && (p[k+1] == '.' ==> k+2 < len(p) && p[k+2] != '/'))
+//@ -- canonical form of a complete string
+//@ pred canonical(s string) = len(s) >= 1 && s[0] == '/' && (forall i int :: 0 < i && i < len(s) && s[i] == '/' ==> s[i-1] != '/') && (forall i int :: 0 < i && i < len(s) && s[i-1] == '/' && s[i] == '.' ==> i+1 < len(s) && s[i+1] != '/' && (s[i+1] == '.' ==> i+2 < len(s) && s[i+2] != '/'))
+//@ pred endsDot(s string) = len(s) >= 1 && s[len(s)-1] == '.' && (len(s) == 1 || s[len(s)-2] == '/')
+
 //@ func bufApp props C17
 //@   requires buf != nil
 //@   requires 0 <= w
@@ -35,9 +49,13 @@ package fox
 //@   ensures keep: old(len(*buf)) != 0 ==> forall i int :: 0 <= i && i < len(*buf) && i != w ==> (*buf)[i] == old((*buf)[i])
 
 //@ func CleanPath props C17
+//@   ensures T2: canonical(result)
+//@   ensures E1: (len(result) > 1 && result[len(result)-1] == '/') <==> (len(result) > 1 && len(p) > 0 && (p[len(p)-1] == '/' || endsDot(p)))
+//@   loop 1: invariant shape: rooted(p, buf) && noEmpty(p, buf, w) && noDot(p, buf, w) && noDotDot(p, buf, w) && lastOK(p, buf, w)
+//@   loop 1: invariant trail2: trailing <==> (n > 1 && p[n-1] == '/') || (r >= n && endsDot(p))
 //@   loop 1: invariant bounds: 1 <= w && 0 <= r && r <= n+1 && n == len(p) && n >= 1
 //@   loop 1: invariant buflen: len(buf) == 0 || len(buf) == n || len(buf) == n+1
-//@   loop 1: invariant lazy: len(buf) == 0 ==> p[0] == '/'
+//@   loop 1: invariant lazy: len(buf) != n+1 <==> p[0] == '/'
 //@   loop 1: invariant wr: len(buf) != n+1 ==> w <= r && (w > 1 && w == r ==> r >= n || p[r] == '/')
 //@   loop 1: invariant wr1: len(buf) == n+1 ==> w <= r+1 && (w > 1 && w == r+1 ==> r >= n || p[r] == '/')
 //@   loop 1: invariant boundary: r == 0 || r >= n || p[r] == '/' || p[r-1] == '/'
@@ -46,14 +64,26 @@ package fox
 //@   loop 1: invariant endw: r >= n && trailing ==> (len(buf) != n+1 ==> w < n) && (len(buf) == n+1 ==> w < n+1)
 //@   loop 1: decreases n + 1 - r
 //@   loop 2: invariant 1 <= w && w <= entry(w)
+//@   loop 2: invariant rooted(p, buf) && noEmpty(p, buf, entry(w)+1) && noDot(p, buf, entry(w)+1) && noDotDot(p, buf, entry(w)+1)
 //@   loop 2: decreases w
 //@   loop 3: invariant 1 <= w && w <= entry(w)
+//@   loop 3: invariant rooted(p, buf) && noEmpty(p, buf, entry(w)+1) && noDot(p, buf, entry(w)+1) && noDotDot(p, buf, entry(w)+1)
 //@   loop 3: decreases w
 //@   loop 4: invariant entry(r) <= r && r <= n && w - entry(w) == r - entry(r) && entry(w) >= 1
 //@   loop 4: invariant buflen: len(buf) == 0 || len(buf) == n || len(buf) == n+1
-//@   loop 4: invariant lazy: len(buf) == 0 ==> p[0] == '/'
+//@   loop 4: invariant lazy: len(buf) != n+1 <==> p[0] == '/'
 //@   loop 4: invariant len(buf) != n+1 ==> entry(w) <= entry(r)
 //@   loop 4: invariant len(buf) == n+1 ==> entry(w) <= entry(r)+1
 //@   loop 4: invariant entry(len(buf)) != 0 ==> len(buf) == entry(len(buf))
 //@   loop 4: invariant forall k int :: entry(r) <= k && k < r ==> p[k] != '/'
+//@   loop 4: invariant realElem(p, entry(r))
+//@   loop 4: invariant sep: out(p, buf, entry(w)-1) == '/'
+//@   loop 4: invariant copied: forall j int :: entry(w) <= j && j < w ==> out(p, buf, j) == p[j - entry(w) + entry(r)]
+//@   loop 4: invariant prefix: rooted(p, buf) && noEmpty(p, buf, entry(w)) && noDot(p, buf, entry(w)) && noDotDot(p, buf, entry(w))
 //@   loop 4: decreases n - r
+//@   behavior idem
+//@   requires canonical(p)
+//@   ensures idempotent: result == p
+//@   loop 1: invariant len(buf) == 0
+//@   loop 1: invariant w == r || (w + 1 == r && w >= 1 && w < n && p[w] == '/')
+//@   loop 4: invariant len(buf) == 0 && w == r
